@@ -504,10 +504,15 @@ func c05(env *core.Env, unify bool) {
 			}
 			env.Failf(class("incomplete"), "%s delivered %v, want %v", op, got, expected)
 		}
-		if fired && faultKind != "transport" && !(faultKind == "member" && false) {
-			// a backend listing that failed must not look complete... unless every item was
-			// delivered before the failure position and the error was the only thing lost
-			env.Failf(class("error-swallowed"), "%s: the backend listing failed after %d items but the iteration ended without error (delivered %v)", op, faultAt, got)
+		if fired && faultKind != "transport" {
+			// The complete sequence has arrived although a backend listing was set to fail:
+			// "either the complete sequence or an error" is satisfied. (Whether the failure
+			// was ever reached cannot be told from outside: a layer that has all it needs
+			// may stop reading before it - Sub past its prefix's range, a page that is
+			// full, a merge that is handed the error but stopped before it gets to pass it
+			// on. An earlier version of this oracle demanded the error whenever the fault
+			// was armed, and spoke up against such layers.)
+			env.Probe("c05:complete-although-a-backend-listing-was-to-fail")
 		}
 		if fired && faultKind == "transport" {
 			env.Failf(class("error-swallowed"), "%s: page %d suffered a transport fault but the iteration ended without error (delivered %v)", op, faultAt, got)
